@@ -49,14 +49,11 @@ var textSingle = []string{"ISO8859-1", "ISO8859-2", "ISO8859-3", "ISO8859-4", "I
 	"ISO8859-10", "ISO8859-13", "ISO8859-14", "ISO8859-15", "ISO8859-16", "KOI8-R", "KOI8-U"}
 var textMulti = []string{"GBK", "GB18030", "Big5", "EUC-JP", "SHIFT_JIS", "EUC-KR"}
 
-func isMulti(cs string) bool {
-	for _, m := range textMulti {
-		if strings.EqualFold(m, cs) {
-			return true
-		}
-	}
-	return false
-}
+func isMulti(cs string) bool { return refIsMulti(cs) }
+
+// every alias spelling encoding/all.go registers for the charsets above (8859-9, ISO-8859-9, SJIS, EUCJP, EUCKR, UTF8 …)
+func textAliasSingle() []string { return refAliasesOf(textSingle) }
+func textAliasMulti() []string  { return refAliasesOf(textMulti) }
 
 // ---------------------------------------------------------------------------------------------------------------
 // variant probe: which side of tscreen.go:1721 (Transform(…, atEOF)) the tree under test is on
@@ -149,8 +146,9 @@ func execLaw(f []string) h.Result {
 		return h.Result{Obs: "no-entry"}
 	}
 	cs := f[3]
-	enc := tcell.GetEncoding(cs)
-	if enc == nil {
+	// the reference decoder is the one the NAME denotes (refcharsets.go), not the one the code under test registered under it
+	enc := refEncoding(cs)
+	if enc == nil || tcell.GetEncoding(cs) == nil {
 		return h.Result{Obs: "no-charset"}
 	}
 	d := enc.NewDecoder()
@@ -397,7 +395,7 @@ func c11Pool(cs string) []mbChar {
 		return p
 	}
 	var pool []mbChar
-	if strings.EqualFold(cs, "UTF-8") {
+	if refIsUTF8(cs) {
 		for _, rg := range textRanges {
 			for r := rg[0]; r <= rg[1]; r++ {
 				if r != utf8.RuneError {
@@ -406,7 +404,7 @@ func c11Pool(cs string) []mbChar {
 			}
 		}
 	} else if cd := newCodec(cs); cd != nil {
-		d := tcell.GetEncoding(cs).NewDecoder()
+		d := refEncoding(cs).NewDecoder()
 		if !isMulti(cs) {
 			for b := 0x80; b < 0x100; b++ { // KOI8 has box-drawing characters at 0x80..0x9F; C1 controls are filtered by rune
 				enumChars(d, []byte{byte(b)}, func(c mbChar) {
@@ -432,13 +430,13 @@ func c11Pool(cs string) []mbChar {
 // the multi-byte characters of a case, plus every byte ≥ 0x80 of the stream that is a character of the charset on its
 // own (Shift_JIS half-width katakana): a parser that has lost a lead byte looks at the following bytes one by one
 func textCharsetToken(cs string, used []mbChar, stream []byte) string {
-	if strings.EqualFold(cs, "UTF-8") {
+	if refIsUTF8(cs) {
 		return "utf8"
 	}
 	if !isMulti(cs) {
-		return charsetToken(cs)
+		return refCharsetToken(cs)
 	}
-	d := tcell.GetEncoding(cs).NewDecoder()
+	d := refEncoding(cs).NewDecoder()
 	for _, b := range stream {
 		if b >= 0x80 {
 			res := rawDecode(d, []byte{b}, true)
@@ -458,6 +456,28 @@ func textCharsetToken(cs string, used []mbChar, stream []byte) string {
 	}
 	sort.Strings(parts)
 	return "mb:" + cs + ":" + strings.Join(parts, ",")
+}
+
+// refCharsetToken: the `tbl:<name>:<runes of 0x80..0xff>` token of a single-byte charset, with the table the NAME denotes
+// (refcharsets.go) — the model and the oracle are evaluated with it, the parser under test with whatever is registered
+func refCharsetToken(name string) string {
+	enc := refEncoding(name)
+	if enc == nil || refIsUTF8(name) {
+		return "utf8"
+	}
+	d := enc.NewDecoder()
+	rs := make([]string, 128)
+	for i := 0; i < 128; i++ {
+		out, err := d.Bytes([]byte{byte(128 + i)})
+		r := rune(0xFFFD)
+		if err == nil {
+			if rr := []rune(string(out)); len(rr) == 1 {
+				r = rr[0]
+			}
+		}
+		rs[i] = strconv.Itoa(int(r))
+	}
+	return "tbl:" + name + ":" + strings.Join(rs, ",")
 }
 
 type tpiece struct {
@@ -549,7 +569,7 @@ func randText(g *h.Gen, cs string, n int) []tpiece {
 			continue
 		}
 		c := h.Pick(g.R, pool)
-		if strings.EqualFold(cs, "UTF-8") && g.R.Chance(30) { // balance the lengths
+		if refIsUTF8(cs) && g.R.Chance(30) { // balance the lengths
 			want := g.R.Range(2, 4)
 			for k := 0; k < 20 && len(c.enc) != want; k++ {
 				c = h.Pick(g.R, pool)
@@ -588,6 +608,20 @@ func genText(g *h.Gen) {
 	}
 	g.Emit("text law vt100%s ISO8859-1 -", v)
 	g.Emit("text law linux%s KOI8-R -", v)
+	// every alias spelling: the name selects the same code page as the canonical one
+	for _, cs := range textAliasSingle() {
+		g.Emit("text law %s%s %s -", h.Pick(g.R, []string{"xterm-256color", "vt100", "linux"}), v, cs)
+	}
+	for _, cs := range append(append([]string{}, textAliasMulti()...), "UTF8") {
+		pool := c11Pool(cs)
+		for i := 0; i < g.N(60, 2000) && len(pool) > 0; i++ {
+			c := h.Pick(g.R, pool)
+			g.Emit("text law xterm-256color%s %s %s", v, cs, h.Hex(c.enc))
+		}
+		for i := 0; i < g.N(1, 40) && len(pool) > 0; i++ {
+			g.Emit("text law xterm-256color%s %s %s", v, cs, h.Hex(h.Pick(g.R, pool).enc[:1]))
+		}
+	}
 	all := append(append([]string{}, textMulti...), "UTF-8")
 	if g.Thorough() {
 		for _, cs := range all {
@@ -622,6 +656,11 @@ func genText(g *h.Gen) {
 	ents := textEntries(g)
 	charsets := append(append([]string{"UTF-8", "UTF-8", "UTF-8", "US-ASCII"}, textMulti...), textMulti...)
 	charsets = append(charsets, textSingle...)
+	// alias spellings (a third of the weight of the canonical names)
+	for i := 0; i < 7; i++ {
+		charsets = append(charsets, h.Pick(g.R, textAliasSingle()))
+	}
+	charsets = append(charsets, textAliasMulti()...)
 	// focus report directly followed by text, on every entry that enables focus reporting (deterministic)
 	for _, name := range ents {
 		ti := entries()[name]
